@@ -986,15 +986,26 @@ Definition plan_monitor (c : ccase) : option string :=
       | None =>
           (* the model refuses to build (e.g. "target leader is not allowed") but the implementation produced a plan:
              judged against what the recorded calls asked for *)
-          match new_builder i with
-          | Some b0 => match api_ops b0 (i_ops i) with
-                       | Some b1 => match plan_check (goal_of b1) (i_region i) ss with
-                                    | Some v => Some (sapp "C08:refused-by-model:" (sapp v (unlike_model c)))
-                                    | None => None
-                                    end
-                       | None => None
-                       end
-          | None => None
+          let judge (j : binput) :=
+            match new_builder j with
+            | Some b0 => match api_ops b0 (i_ops j) with
+                         | Some b1 => match plan_check (goal_of b1) (i_region j) ss with
+                                      | Some v => Some (Some (sapp "C08:refused-by-model:" (sapp v (unlike_model c))))
+                                      | None => Some None
+                                      end
+                         | None => Some None
+                         end
+            | None => None
+            end in
+          match judge i with
+          | Some v => v
+          | None =>
+              (* NewBuilder itself refuses (the origin is in a joint state and the caller does not skip that check), yet the
+                 implementation built a plan: judged as if the check had been skipped *)
+              match judge (BInput (i_cluster i) (i_region i) (i_unhealthy i) true (i_ops i) (i_alloc i)) with
+              | Some v => v
+              | None => None
+              end
           end
       end
   | CLeave _ r (Built ss _ _) _ =>
